@@ -17,6 +17,10 @@ type ParallelStats struct {
 	Funcs    map[string]bool
 	Intr     map[string]bool
 	Notes    map[string]bool
+	Lemmas   map[string]bool
+	Merged   map[string]int
+	IfConv   int
+	Poisoned int
 	Terms    int
 }
 
@@ -24,7 +28,7 @@ type ParallelStats struct {
 // of decision prefixes.
 func ParallelExplore(fn *ssa.Function, n int, mk WorkerFactory, maxPaths int, wantSamples int) (*Report, *ParallelStats, error) {
 	rep := &Report{Harness: fn.Name(), Ends: map[string]int{}, Reached: map[string]int{}}
-	st := &ParallelStats{Funcs: map[string]bool{}, Intr: map[string]bool{}, Notes: map[string]bool{}}
+	st := &ParallelStats{Funcs: map[string]bool{}, Intr: map[string]bool{}, Notes: map[string]bool{}, Lemmas: map[string]bool{}, Merged: map[string]int{}}
 	var mu sync.Mutex
 	cond := sync.NewCond(&mu)
 	work := [][]int{nil}
@@ -63,6 +67,14 @@ func ParallelExplore(fn *ssa.Function, n int, mk WorkerFactory, maxPaths int, wa
 				for k := range x.Notes {
 					st.Notes[k] = true
 				}
+				for k := range x.Lemmas {
+					st.Lemmas[k] = true
+				}
+				for k, v := range x.Merged {
+					st.Merged[k] += v
+				}
+				st.IfConv += x.IfConv
+				st.Poisoned += x.Poisoned
 				mu.Unlock()
 				x.S.Close()
 			}()
